@@ -10,6 +10,7 @@ pub struct SizeAlign;
 
 impl Prop for SizeAlign {
     type Case = Case;
+    crate::prog_shrink!();
     fn name(&self) -> String {
         "C02/size-align".into()
     }
